@@ -6,7 +6,8 @@ from ..core import Script, Rng
 from ..stage import LineStage, replay_line
 from .common import *
 
-ARTEFACTS = ["G1-consts", "G4-listings"]
+ARTEFACTS = ["G1-consts", "G4-listings", "G23-c-wide"]
+EXTRA_PROPS = [("B3.Props.C06W", "B3/Props/C06W.lean")]   # theorems about the code translated from the sources
 RULE = ("the hook's scripted Join (per split: 0 = left first, 1 = right first, 2 = right half on a new thread) drives "
         "update_with_join on inputs with > simd_degree chunks (and update_mmap_rayon on real files of lengths around the 16 KiB mmap threshold inside pools of 1 and 2..16 threads): all 3^k schedules for inputs with k <= 4 splits (cyclic script), sampled "
         "beyond; update_rayon in pools of 1..16 threads; the C library's BLAKE3_USE_TBB seam implemented by harness/c with the same "
@@ -73,13 +74,27 @@ def tbb_scripts(rng, count):
     return out
 
 
+def rayon_tail_scripts(rng, count):
+    """read-loop shapes: a prefix ending on a chunk boundary (or not), then update_rayon calls of 1..1024 bytes, finalize in between"""
+    out = []
+    for i in range(count):
+        plat = PLATFORMS[i % 5]
+        pre = rng.choice([1024, 2048, 3072, 4096, 65536, 2 * 65536, 1024 * rng.randrange(1, 40), 1024 * rng.randrange(1, 40) + rng.choice([1, 500])])
+        ops = [f"P plat {plat}", f"H new a {mode_tok(rng)}", f"H {rng.choice(['upd', 'updray 2', 'updray 4'])} a {pat(pre, rng)}"]
+        for _ in range(rng.randrange(1, 4)):
+            ops += [f"H updray a {rng.choice([1, 2, 8])} {pat(rng.choice([1, 63, 64, 65, 300, 1023, 1024]), rng)}", "H cnt a", "H fin a"]
+        ops += ["H xof a x", "X fill x 70", f"H upd a {pat(rng.choice([1, 2000]), rng)}", "H fin a"]
+        out.append(Script(ops, tags=(plat, "rayon-tail")))
+    return out
+
+
 def stages(tier, seed, witness_search=False):
     rng = Rng(seed)
     k = 60 if tier == "quick" else 1500
     if witness_search:
         k *= 3
     from . import c11
-    return [LineStage("scripted-join+rayon", sched_scripts(rng, tier) + rayon_scripts(rng, k), normalize=normalize),
+    return [LineStage("scripted-join+rayon", sched_scripts(rng, tier) + rayon_scripts(rng, k) + rayon_tail_scripts(rng, k), normalize=normalize),
             LineStage("c-tbb-seam", tbb_scripts(rng, k), impl="c", normalize=normalize),
             # update_mmap_rayon on real files inside pools of 1 and 2..16 threads, against plain update of the same bytes
             c11.FileStage(seed + 7, fifo=False)]
